@@ -43,6 +43,7 @@ func (s *mixed) Plan(w *World) {
 		}
 		s.c6 = append(s.c6, c)
 	}
+	w.Sim.FSRegisterDir(w.Dir)
 	w.Sim.FSRegisterPath(s.f4)
 	w.Sim.FSRegisterPath(s.f6)
 	w.Sim.FSCreate(s.f4, []byte(s.leases(w, false)))
@@ -102,6 +103,9 @@ func (s *mixed) refresh(w *World) {
 		path = s.f6
 	}
 	w.hist("operator: rewrite %s in place", filepath.Base(path))
+	for i, k := 0, int(t.Draw(4)); i < k; i++ {
+		s.one(w) // requests in flight while the file changes
+	}
 	w.Sim.FSTruncate(path)
 	b := []byte(text)
 	k := t.Range(1, 3)
